@@ -17,7 +17,8 @@ RULE = ("Datasets of N=4..24 (quick) / ..48 (thorough) rows in the metric's doma
         "random train/test index sets (never the identity prefix), models supervised / semi-supervised / unsupervised, file extensions .txt and "
         ".csv. The library's own pre_compute_distance writes the file; model A computes the metric on the fly on X[I], model B reads the file and "
         "gets the index arrays. Forest snapshots (cost, pred, labels, status, root, cluster, density, conquest order, best_k, density range) and "
-        "predictions must be equal with ==; get_distances() must equal the metric on every ordered pair (and its min-max rescaling). "
+        "predictions must be equal with ==; get_distances() must equal the metric on every ordered pair (and its min-max rescaling); then the routine rewrites the same path for another "
+        "dataset of the same shape and a model built afterwards must hold the new matrix. "
         "Non-trivial: N > n_train, >=1 test row, train indices not sorted-prefix; distinct = case hash.")
 ASSUMPTIONS = [
     "KNN-supervised is outside the statement (it demands an n_train x n_train matrix)",
@@ -29,7 +30,7 @@ BUDGET = {
     "thorough": {"cases": 120000, "seconds": 900, "shards": 16},
 }
 REQUIRED_OBS = ["snapshots_compared", "predictions_compared", "ext:txt", "ext:csv", "model:supervised", "model:semi", "model:unsup",
-                "get_distances_checked", "asymmetric_metric_cases"]
+                "get_distances_checked", "asymmetric_metric_cases", "same_path_rewrite_checked"]
 MIN_NONTRIVIAL = 60
 FIELDS = ("cost", "pred", "predicted_label", "status", "root", "cluster_label", "density", "relevant")
 
@@ -166,6 +167,21 @@ def check(case):
                     res.violate("get_distances", "C10/get_distances-normalize-wrong", f"{kind}/{name}: get_distances(normalize=True) is not the min-max rescaling")
                     return res
                 res.see("get_distances_normalized_checked")
+        # ---- history: the routine writes ANOTHER dataset of the same shape to the SAME path; a model built afterwards must see it
+        X2 = np.roll(X, 1, axis=0) * 1.25 + (0.0 if T[name][1] == "Q" else 0.125)
+        w2 = safe_call(g.pre_compute_distance, X2.copy(), path, name)
+        b2 = safe_call(build_model, kind, name, pre=path, **kw) if w2.ok else w2
+        if not b2.ok:
+            res.violate("file", f"C10/exception/second-file/{type(b2.exc).__name__}", f"second pre_compute_distance/load at the same path failed at {b2.where}")
+            return res
+        want2 = np.array([[float(fn(X2[i].copy(), X2[j].copy())) for j in range(len(X2))] for i in range(len(X2))])
+        res.see("same_path_rewrite_checked")
+        if not np.array_equal(np.asarray(b2.value.pre_distances), want2, equal_nan=True):
+            stale = np.array_equal(np.asarray(b2.value.pre_distances), np.asarray(D), equal_nan=True)
+            res.violate("file", "C10/stale-matrix-after-rewrite",
+                        f"{kind}/{name}/.{case['ext']}: a model built after the file was rewritten for another dataset does not hold that dataset's distances"
+                        + (" (it still holds the PREVIOUS matrix)" if stale else ""))
+            return res
         if "s" not in T[name][2]:
             res.see("asymmetric_metric_cases")
         res.nontrivial = len(X) > len(I_tr) and len(I_te) >= 1
